@@ -51,12 +51,12 @@ func init() {
 		Triage: triageC09,
 		Run:    runC09})
 
-	register(&Prop{ID: "C10", N: diffN, Quick: 7000, Assume: stdAssume,
+	register(&Prop{ID: "C10", Witness: true, N: diffN, Quick: 7000, Assume: stdAssume,
 		Rule:   "cases G(D,i); for each, values in leftmost-longest mode (Longest() and CompilePOSIX where the pattern is POSIX-valid) are compared with stdlib in the same mode over Match/Find/FindSubmatch/FindAll/Replace/Split, and mode isolation is observed: Longest on a Copy or on a second value compiled from the same text must leave the first value's results unchanged and equal to stdlib's default-mode results; distinct_nontrivial = distinct (pattern, haystack) pairs where stdlib's longest-mode and default-mode FindSubmatchIndex differ or a match exists",
 		Triage: triageDiff,
 		Run:    runC10})
 
-	register(&Prop{ID: "C11", N: diffN, Quick: 7000, Assume: []string{"no external oracle: relations between results of different methods of one compiled value (DESIGN Appendix C.1)", "cases G(D,i), all regions including ill-formed UTF-8"},
+	register(&Prop{ID: "C11", Witness: true, N: diffN, Quick: 7000, Assume: []string{"no external oracle: relations between results of different methods of one compiled value (DESIGN Appendix C.1)", "cases G(D,i), all regions including ill-formed UTF-8"},
 		Rule:   "cases G(D,i); for each (value, haystack) the relations R1-R20 between views are evaluated (Match⇔FindIndex, Find/FindString/group 0 = haystack sliced at FindIndex, string/[]byte/reader agreement, FindAll(n) prefix of FindAll(-1), Count/iterators/AppendAllIndex = FindAllIndex, FindAllSubmatch group 0 = FindAll, meta.Engine views = top level, FindIndicesAt/FindAt consistency at every offset); one evaluation = one relation instance; distinct_nontrivial = distinct (pattern, haystack) pairs with at least one match",
 		Triage: triageC11,
 		Run:    runC11})
